@@ -19,19 +19,25 @@ RULE = ('(tcpcl) two-endpoint histories as in C01/C09 (sends, pops, terminate, s
         'Oracle: no emission/return fails to marshal; recv queue == announced-finished minus popped at every query; pop '
         'returns the sender bytes once and an error reply afterwards; send queue == accepted minus finished; <= 1 '
         'finished signal per started transfer and exactly 1 after a graceful end; is_sess_idle() true => nothing '
-        'queued / in progress / unacknowledged / buffered, and true after a complete fair drain.  Non-trivial = a query '
+        'queued / in progress / unacknowledged / buffered, and true after a complete fair drain.  (stack) three whole nodes '
+        '(BP agent + the real bp.cla adaptors + TCPCL and UDPCL agents, virtual message bus, simulated network): bundles are '
+        'originated, sessions terminated / closed and re-made; the adaptor, as the consumer of the finished signals, must '
+        'hand every transfer that completed on the wire to the BP agent once, with the sender octets, leave the receive queues '
+        'empty, and every value crossing the bus in either direction must marshal against the declared signature.  Non-trivial = a query '
         'landed while a transfer was mid-flight; distinct by SHA-1 of the case.')
 SHRINK_KEYS = ('ops',)
 ASSUMPTIONS = [
     'vlib/dbusmodel.py models the documented dbus-python marshalling rules (it is not the library)',
     'method calls on an object already removed from the bus are answered by the bus (UnknownObject), the method does not run',
-    'the BP-side adaptor bp/cla.py needs a session bus and is not driven; what the CL agents emit and return is checked',
+    '(stack) the virtual bus delivers a signal to its subscribers through their main loop, in emission order, and runs a '
+    'method call inside the process that exported the object while the caller waits',
 ]
 
 
 def prepare():
     boot.tcpcl()
     boot.udpcl()
+    boot.bp()
 
 
 def budgets(tier):
@@ -54,7 +60,8 @@ def strategy(tier):
     tcp = tm.cases(max_ops=16 if tier == 'quick' else 26, terminate=True, queries=True).map(densify)
     try:
         from vlib import udpcl_machine as um
-        return st.one_of(tcp, tcp, um.cases().map(lambda c: dict(c, kind='udpcl')))
+        from vlib import stack_world as sw
+        return st.one_of(tcp, tcp, um.cases().map(lambda c: dict(c, kind='udpcl')), sw.cases())
     except ImportError:
         return tcp
 
@@ -72,6 +79,8 @@ def pinned_cases():
            ['query', 'B', 'recv_bundle_get_queue'], ['pop', 'B'], ['query', 'B', 'pop_twice'], ['query', 'B', 'pop_unknown'],
            ['query', 'A', 'get_connections']]
     yield 'queries', {'kind': 'tcpcl', 'cfg': cfg, 'ops': ops}
+    yield 'stack-reconnect', {'kind': 'stack', 'keepalive': 0, 'hops': ['tcpcl', 'udpcl'], 'umtu': 100, 'rmtu': None, 'size': 300,
+                              'ops': [['send', 1, 3, True, 0], ['cut', 2], ['send', 3, 1, False, 1], ['send', 1, 3, True, 1]]}
     yield 'pop-to-unwritable-file', {'kind': 'tcpcl', 'cfg': cfg,
                                      'ops': [['estab'], ['send', 'A', 11, 1], ['run', [0, 1] * 30], ['query', 'B', 'recv_bundle_get_queue'],
                                              ['query', 'B', 'pop_file_bad'], ['pop', 'B']]}
@@ -301,8 +310,61 @@ def execute_refusal(case, out):
     out.nontrivial = True
 
 
+def execute_stack(case, out):
+    ''' The BP-side adaptor (bp/cla.py) as the consumer of the transfer signals. '''
+    from vlib import stack_world as sw
+    import dbus
+    world, info = sw.drive(case, out)
+    try:
+        world.pump()
+        world.advance(1000)
+        wire = {}
+        for xfer in world.transfers() + world.udp_bundles():
+            if xfer['complete'] and xfer['dst'] is not None:
+                wire.setdefault(xfer['dst'], []).append(xfer['data'])
+        for index, host in world.hosts.items():
+            pool = list(wire.get(index, []))
+            for cltype, data in host.handed:
+                out.count('handed-to-bp')
+                if data in pool:
+                    pool.remove(data)
+                else:
+                    out.fail('handed-not-on-wire', 'the %s adaptor of n%d handed %d octets to the BP agent that no peer sent (or handed '
+                             'them twice)' % (cltype, index, len(data)))
+            if pool and not info['closed']:
+                out.fail('finished-transfer-not-handed', '%d transfer(s) completed on the wire towards n%d but never reached its BP agent '
+                         '(no connection was closed abruptly): ops %s' % (len(pool), index, case['ops']))
+            # nothing is left in a receive queue: every finished transfer was popped by the adaptor
+            for hdl in host.contacts():
+                left = list(hdl.recv_bundle_get_queue())
+                if left:
+                    out.fail('receive-queue-not-drained', 'contact %s of n%d still lists %s after the adaptor handled every signal'
+                             % (hdl.object_path, index, left))
+            left = list(host.udpcl.recv_bundle_get_queue())
+            if left:
+                out.fail('receive-queue-not-drained', 'UDPCL agent of n%d still lists %s after the adaptor handled every signal' % (index, left))
+        for ev in dbus.RECORDER.events:
+            if ev.get('error') and ev['kind'] in ('signal', 'return'):
+                out.fail('does-not-marshal:%s' % ev['member'], '%s %s%r does not fit %r: %s'
+                         % (ev['kind'], ev['member'], ev.get('args'), ev.get('signature'), ev['error']))
+        for call in dbus.bus.VBUS.calls:
+            out.count('bus-call:' + call['member'])
+            if call['error'] and 'TypeError' in call['error']:
+                out.fail('bus-call-type-error:%s' % call['member'], 'call %s%r over the bus failed on type grounds: %s'
+                         % (call['member'], call['args'], call['error']))
+        for esc in world.escapes():
+            out.count('stack-escape:%s@%s' % (esc.exc_type, esc.frame))
+        out.label('stack')
+        out.nontrivial = info['cut_after_traffic'] and info['resend_after_cut']
+    finally:
+        world.close()
+
+
 def execute(case):
     out = Outcome()
+    if case.get('kind') == 'stack':
+        execute_stack(case, out)
+        return out
     if case.get('kind') == 'refusal':
         execute_refusal(case, out)
         out.label('tcpcl-refusal')
